@@ -158,6 +158,12 @@ func (u *Unit) runBody(st *State, body []ast.Stmt) {
 		t := e.evSpec(c.Text)
 		st.assume(t.S)
 		u.entry.assume(t.S)
+		if c.Name != "" {
+			if u.invTag == nil {
+				u.invTag = map[string]string{}
+			}
+			u.invTag[t.S] = "requires#" + c.Name
+		}
 		reqTexts = append(reqTexts, c.Text)
 	}
 	// user axioms (`axiom NAME` / `def <closed formula>`), requested with `axioms NAME`
@@ -272,7 +278,7 @@ func (u *Unit) finish() {
 			e.results = ex.results
 			e.resNames = resNames
 			t := e.evSpec(c.Text)
-			parts = append(parts, pathImp(ex.st.pc, t.S))
+			parts = append(parts, pathImp(u.filterPC(b, c.Name, ex.st.pc), t.S))
 		}
 		name := c.Name
 		if name == "" {
@@ -900,6 +906,38 @@ func coneOfInfluence(defs []string, roots []string) []string {
 		if taken[i] {
 			out = append(out, d.text)
 		}
+	}
+	return out
+}
+
+// filterPC: `uses NAME: A B ...` in a function block: postcondition NAME needs, of the named loop
+// invariants assumed along the way, only A, B, ... (see filterInvHyps).
+func (u *Unit) filterPC(b *Block, name string, pc []string) []string {
+	if name == "" || u.invTag == nil {
+		return pc
+	}
+	var allowed map[string]bool
+	for _, c := range b.clauses("uses") {
+		parts := strings.SplitN(c.Text, ":", 2)
+		if len(parts) != 2 || strings.TrimSpace(parts[0]) != name {
+			continue
+		}
+		allowed = map[string]bool{}
+		for _, a := range strings.Fields(parts[1]) {
+			allowed[a] = true
+		}
+	}
+	if allowed == nil {
+		return pc
+	}
+	var out []string
+	for _, h := range pc {
+		if tag, ok := u.invTag[h]; ok {
+			if k := strings.LastIndex(tag, "#"); k >= 0 && !allowed[tag[k+1:]] {
+				continue
+			}
+		}
+		out = append(out, h)
 	}
 	return out
 }
